@@ -249,15 +249,23 @@ RefUpdate(s, o, h) ==
   ELSE IF pb = "never" THEN (IF Value(s, n) # NoVal THEN <<"Necessary", Value(s, n)>> ELSE <<"", NoVal>>)
   ELSE IF s.lastChg[n] = s.round THEN <<"Changed", Value(s, n)>>
   ELSE <<"", NoVal>>
-RefDlvSet(s) ==
-  UNION {{[o |-> o, t |-> s.osubs[o][i].tok, u |-> RefUpdate(s, o, s.osubs[o][i])[1],
-           v |-> RefUpdate(s, o, s.osubs[o][i])[2]] : i \in 1..Len(s.osubs[o])} :
-         o \in {x \in 1..s.no : s.ostate[x] = "inuse"}}
-RefDlv(s) == {d \in RefDlvSet(s) : d.u # ""}
+\* Handlers may end subscriptions or observers (their own or others') while they run, and the order
+\* in which handlers run is unspecified: what was live when the handlers started MAY be delivered
+\* (RefDlvMax), what is still live when they are done MUST have been delivered (RefDlvMin).
+RefDlvOf(s, obsSet, subsOf(_)) ==
+  {d \in UNION {{[o |-> o, t |-> subsOf(o)[i].tok, u |-> RefUpdate(s, o, subsOf(o)[i])[1],
+                   v |-> RefUpdate(s, o, subsOf(o)[i])[2]] : i \in 1..Len(subsOf(o))} : o \in obsSet} : d.u # ""}
+RefDlvMax(s) ==
+  RefDlvOf(s, {x \in 1..Len(s.ostateH) : s.ostateH[x] = "inuse"}, LAMBDA o : s.osubsH[o])
+RefDlvMin(s) ==
+  LET live(o) == SelectSeq(s.osubs[o], LAMBDA h : o <= Len(s.osubsH) /\ \E i \in 1..Len(s.osubsH[o]) : s.osubsH[o][i].tok = h.tok)
+  IN RefDlvOf(s, {x \in 1..Len(s.ostateH) : s.ostateH[x] = "inuse" /\ s.ostate[x] = "inuse"}, live)
+RefDlv(s) == RefDlvMax(s)
 DlvSet(s) == {[o |-> s.dlv[i].o, t |-> s.dlv[i].t, u |-> s.dlv[i].u, v |-> s.dlv[i].v] : i \in 1..Len(s.dlv)}
 ExactUpdates(s) ==
   (Ok(s) /\ s.status = "handlers" /\ s.runq = <<>>) =>
-     /\ DlvSet(s) = RefDlv(s)
+     /\ DlvSet(s) \subseteq RefDlvMax(s)
+     /\ RefDlvMin(s) \subseteq DlvSet(s)
      /\ Cardinality(DlvSet(s)) = Len(s.dlv)      \* nothing delivered twice
 
 ---------------------------------------------------------------------------
